@@ -10,6 +10,8 @@
 (* stream [keySize]                             ciphertext        hlen || SALT(keySize) || NONCEPREFIX(7) || segments *)
 (* hpke   [kem, variant]                        ciphertext        prefix || ENC(Nenc(kem)) || AEAD ct   (RFC 9180) *)
 (* ecies  [curve, fmt, dem, variant]            ciphertext        prefix || POINT || DEM ciphertext (IV first unless AES-SIV) *)
+(* envelope []                                  ciphertext        len32(n) || KEK ciphertext of the DEK (n bytes, NONCE first) || DEK ciphertext (NONCE first) *)
+(*        (aead.NewKMSEnvelopeAEAD2 with AES-GCM KEK and DEK: two 12-byte nonces per output)                 *)
 (* sig    [variant]                             signature         prefix || RAW SIGNATURE  (same message every call) *)
 (* keyid  []                                    key id, manager   ID (4 bytes); (manager, ID) never repeats, *)
 (*                                                                also not after the key of that id was deleted *)
@@ -45,6 +47,9 @@ RandomFieldsOf(kind, cfg) ==
          IF EciesHasIV(cfg)
            THEN <<RField("enc", EciesEncLen(cfg), FALSE, FALSE), RField("demIV", DemIVLen(cfg.dem), TRUE, FALSE)>>
            ELSE <<RField("enc", EciesEncLen(cfg), FALSE, FALSE)>>
+    [] kind = "envelope" ->
+         <<RField("kekNonce", AESGCMIVLen, TRUE, FALSE), RField("dekNonce", AESGCMIVLen, TRUE, FALSE),
+           RField("kekNonce^dekNonce", AESGCMIVLen, TRUE, FALSE)>>
     [] kind = "sig"    -> <<RField("signature", 0, FALSE, FALSE)>>
     [] kind = "keyid"  -> <<RField("id", 4, TRUE, FALSE), RField("manager,id", 0, FALSE, TRUE)>>
     [] kind = "keygen" -> <<RField("key", 0, FALSE, FALSE)>>
@@ -55,6 +60,7 @@ MinLen(kind, cfg) ==
     [] kind = "stream" -> 1 + cfg.keySize + NoncePrefixLen
     [] kind = "hpke"   -> PrefixLen(cfg.variant) + Nenc(cfg.kem)
     [] kind = "ecies"  -> PrefixLen(cfg.variant) + EciesEncLen(cfg) + (IF EciesHasIV(cfg) THEN DemIVLen(cfg.dem) ELSE 0)
+    [] kind = "envelope" -> 4 + AESGCMIVLen + AESGCMTagLen + AESGCMIVLen + AESGCMTagLen
     [] kind = "sig"    -> PrefixLen(cfg.variant) + 1
     [] kind = "keyid"  -> 4
     [] kind = "keygen" -> 1
@@ -79,6 +85,11 @@ RandomValuesOf(kind, cfg, out, aux) ==
          IF EciesHasIV(cfg)
            THEN <<Slice(out, p, EciesEncLen(cfg)), Slice(out, p + EciesEncLen(cfg), DemIVLen(cfg.dem))>>
            ELSE <<Slice(out, p, EciesEncLen(cfg))>>
+    [] kind = "envelope" ->
+         LET n  == BEToNat(Slice(out, 2, 2))          \* the encrypted DEK is far shorter than 2^16 bytes
+             kn == Slice(out, 4, AESGCMIVLen)
+             dn == Slice(out, 4 + n, AESGCMIVLen)
+         IN <<kn, dn, Xor(kn, dn)>>
     [] kind = "sig"    -> <<Drop(out, PrefixLen(cfg.variant))>>
     [] kind = "keyid"  -> <<out, aux \o <<0>> \o out>>
     [] kind = "keygen" -> <<out>>
@@ -87,6 +98,8 @@ RandomValuesOf(kind, cfg, out, aux) ==
 FramingOK(kind, cfg, out) ==
   /\ Len(out) >= MinLen(kind, cfg)
   /\ kind = "stream" => out[1] = 1 + cfg.keySize + NoncePrefixLen
+  /\ kind = "envelope" => /\ out[1] = 0 /\ out[2] = 0
+                          /\ Len(out) >= 4 + BEToNat(Slice(out, 2, 2)) + AESGCMIVLen + AESGCMTagLen
   /\ kind \in {"aead", "hpke", "ecies", "sig"} /\ cfg.variant # "NO_PREFIX" =>
        Take(out, 1) = (IF cfg.variant = "TINK" THEN <<1>> ELSE <<0>>)
 ================================================================================
